@@ -26,6 +26,11 @@ pub enum Beh {
     ResetAfter(u64),
     /// complete the handshake, then neither read nor answer (stream requests time out)
     Ignore,
+    /// complete the handshake, read everything but answer no stream request, send a WebSocket Close
+    /// after d ms: a request made meanwhile is in flight when the connection is lost
+    SilentClose(u64),
+    /// the same, but the TCP connection is aborted after d ms
+    SilentReset(u64),
     /// the real server, healthy for the rest of the run
     Healthy,
 }
@@ -220,6 +225,45 @@ pub fn run(plan: &C19Plan, sched: &Sched) -> Outcome {
                                 drop(mux);
                             }
                         }
+                        Beh::SilentClose(d) | Beh::SilentReset(d) => {
+                            use futures_util::{SinkExt, StreamExt};
+                            let l = listener.expect("listener");
+                            let (s, _) = l.accept().await.expect("accept");
+                            drop(l);
+                            let mut ws = tokio_tungstenite::accept_hdr_async(s, ws_cb).await.expect("ws accept");
+                            let deadline = tokio::time::sleep(ms(*d));
+                            tokio::pin!(deadline);
+                            let mut gone = false;
+                            loop {
+                                tokio::select! {
+                                    biased;
+                                    () = &mut deadline => break,
+                                    m = ws.next() => {
+                                        if !matches!(m, Some(Ok(_))) {
+                                            gone = true;
+                                            break;
+                                        }
+                                    }
+                                }
+                            }
+                            let ft = now();
+                            if gone {
+                                // the client let go first (nothing this script intends): nothing more to judge
+                                recs.push(Rec { at, fail: None, completed: true });
+                                break 'script;
+                            }
+                            if matches!(b, Beh::SilentClose(_)) {
+                                ws.send(tokio_tungstenite::tungstenite::Message::Close(None)).await.ok();
+                                recs.push(Rec { at, fail: Some(ft), completed: true });
+                                // let the Close exchange finish
+                                let _ = tokio::time::timeout(ms(1), async { while let Some(Ok(_)) = ws.next().await {} }).await;
+                            } else {
+                                penguin_simnet::with(|w| w.reset_conn(conn));
+                                recs.push(Rec { at, fail: Some(ft), completed: true });
+                                tokio::time::sleep(ms(1)).await;
+                            }
+                            drop(ws);
+                        }
                         Beh::Ignore => {
                             let l = listener.expect("listener");
                             let (s, _) = l.accept().await.expect("accept");
@@ -333,6 +377,11 @@ fn judge(plan: &C19Plan, recs: Vec<Rec>, cres: Option<String>, attempts: Vec<(Du
                     }
                 }
             }
+        } else if matches!(plan.script[i], Beh::SilentClose(_) | Beh::SilentReset(_)) {
+            // nothing was served: what was queued or in flight stays parked
+            if arrivals.iter().any(|(li, t)| plan.locals.get(*li).is_some_and(|l| l.phase >= served_upto) && r.fail.is_some_and(|ft| *t < ft)) {
+                o.probe("request-in-flight-at-loss", 1);
+            }
         } else if r.completed {
             // a live multiplexor served whatever was queued
             served_upto = i + 1;
@@ -379,8 +428,8 @@ fn judge(plan: &C19Plan, recs: Vec<Rec>, cres: Option<String>, attempts: Vec<(Du
             None => {
                 if missing == Some(i + 1) || (i + 1 == recs.len() && missing.is_none() && cres.is_none()) {
                     let kind = match plan.script[i] {
-                        Beh::CloseAfter(_) => "orderly-close",
-                        Beh::ResetAfter(_) => "reset",
+                        Beh::CloseAfter(_) | Beh::SilentClose(_) => "orderly-close",
+                        Beh::ResetAfter(_) | Beh::SilentReset(_) => "reset",
                         _ => "failure",
                     };
                     o.violate(&format!("C19:no-reconnect-after-{kind}"), format!("after failure {i} ({:?}) at {ft:?} a retry was due at {:?} but the client made no further attempt (client: {cres:?}); {desc}", plan.script[i], ft + delay));
